@@ -1029,6 +1029,31 @@ func hexs(b []byte) string {
 	return hex.EncodeToString(b)
 }
 
+// TestReplay re-runs the minimised inputs of the defects this check found (replays/C14/*.json).
+func TestReplay(t *testing.T) {
+	n := 0
+	for _, rc := range hx.LoadReplays("C14") {
+		in, err := hex.DecodeString(rc["message_hex"])
+		if err != nil {
+			t.Fatalf("%s: %v", rc["_file"], err)
+		}
+		c := pcase{matcher: rc["matcher"], in: in, udp: rc["udp"] == "true", class: "replay", want: mustNot, why: rc["note"]}
+		if rc["expect"] == "match" {
+			c.want = must
+		}
+		if rc["cfg"] != "" {
+			var cfg any
+			if err := json.Unmarshal([]byte(rc["cfg"]), &cfg); err != nil {
+				t.Fatalf("%s: %v", rc["_file"], err)
+			}
+			c.cfg = cfg
+		}
+		check(t, "replay/"+rc["matcher"], c)
+		n++
+	}
+	hx.Class("C14/replay-files", int64(n))
+}
+
 func TestReferencePredicates(t *testing.T) {
 	for proto, g := range gens {
 		proto, g := proto, g
